@@ -2,6 +2,10 @@
 package c15
 
 import (
+	"encoding/json"
+
+	"github.com/ovn-org/libovsdb/database/inmemory"
+	"github.com/ovn-org/libovsdb/model"
 	"github.com/ovn-org/libovsdb/ovsdb"
 	rt "github.com/ovn-org/libovsdb/verifrt"
 	"github.com/ovn-org/libovsdb/zzverif/c04"
@@ -17,6 +21,22 @@ func symName() string {
 	s := rt.String()
 	rt.Assume(!rt.IsUUID(s) && s != "")
 	return s
+}
+
+// wire passes the operations through their JSON encoding, as a server receives them (a one-element set arrives
+// as the bare element).
+func wire(ops []ovsdb.Operation) []ovsdb.Operation {
+	out := make([]ovsdb.Operation, len(ops))
+	for i := range ops {
+		b, err := json.Marshal(ops[i])
+		if err != nil {
+			panic(err)
+		}
+		if err := json.Unmarshal(b, &out[i]); err != nil {
+			panic(err)
+		}
+	}
+	return out
 }
 
 // resolve: one named insert of a Child and one use of the name in position pos of a Root insert (or of a
@@ -58,6 +78,9 @@ func resolve(pos int) {
 	case 6: // a condition on _uuid, in a later operation
 		ops = append(ops, ovsdb.Operation{Op: ovsdb.OperationUpdate, Table: "Child", Row: ovsdb.Row{"name": "renamed"},
 			Where: []ovsdb.Condition{{Column: "_uuid", Function: ovsdb.ConditionEqual, Value: named(name)}}})
+	}
+	if rt.Choose(2) == 1 {
+		ops = wire(ops)
 	}
 	res := c04.Run(db, ops...)
 	rt.Reach("ran")
@@ -150,5 +173,55 @@ func VerifC15Two() {
 	if rm, ok := roots[fix.U1]; ok {
 		r := rm.(*fix.Root4)
 		rt.Assert(len(r.Kids) == 1 && r.Kids[0] == u1, "C15: a backward reference by name refers to the row inserted under that name")
+	}
+}
+
+// VerifC15PlainTable: names used on a table that declares no UUID-typed column (only the implicit _uuid): the
+// named row is selected, updated or deleted through a condition on _uuid in the same transaction.
+func VerifC15PlainTable() {
+	db := inmemory.NewDatabase(map[string]model.ClientDBModel{"V": fix.ClientModelS5()})
+	if err := db.CreateDatabase("V", fix.MustSchema(fix.SchemaS5)); err != nil {
+		panic(err)
+	}
+	name := symName()
+	cond := []ovsdb.Condition{{Column: "_uuid", Function: ovsdb.ConditionEqual, Value: named(name)}}
+	ops := []ovsdb.Operation{
+		{Op: ovsdb.OperationInsert, Table: "Leaf", UUIDName: name, Row: ovsdb.Row{"name": "leaf"}},
+		{Op: ovsdb.OperationInsert, Table: "Leaf", UUID: fix.F2, Row: ovsdb.Row{"name": "other"}},
+		{Op: ovsdb.OperationInsert, Table: "Mid", UUID: fix.M1, Row: ovsdb.Row{"name": "m", "leaves": ovsdb.OvsSet{GoSet: []interface{}{named(name), ovsdb.UUID{GoUUID: fix.F2}}}}},
+		{Op: ovsdb.OperationInsert, Table: "Root", UUID: fix.U1, Row: ovsdb.Row{"name": "r", "mids": ovsdb.OvsSet{GoSet: []interface{}{ovsdb.UUID{GoUUID: fix.M1}}}}},
+	}
+	kind := rt.Choose(3)
+	switch kind {
+	case 0:
+		ops = append(ops, ovsdb.Operation{Op: ovsdb.OperationUpdate, Table: "Leaf", Where: cond, Row: ovsdb.Row{"name": "renamed"}})
+	case 1:
+		ops = append(ops, ovsdb.Operation{Op: ovsdb.OperationSelect, Table: "Leaf", Where: cond})
+	case 2:
+		ops = append(ops, ovsdb.Operation{Op: ovsdb.OperationMutate, Table: "Mid", Where: c04.ByUUID(fix.M1),
+			Mutations: []ovsdb.Mutation{{Column: "leaves", Mutator: ovsdb.MutateOperationDelete, Value: set1(name)}}})
+	}
+	if rt.Choose(2) == 1 {
+		ops = wire(ops)
+	}
+	res := c04.Run(db, ops...)
+	rt.Reach("ran")
+	rt.Assert(!c04.Failed(res), "C15: a transaction using a name it defines is accepted")
+	if c04.Failed(res) {
+		return
+	}
+	got := res[0].UUID.GoUUID
+	leaves, _ := db.List("V", "Leaf")
+	switch kind {
+	case 0:
+		rt.Assert(res[4].Count == 1, "C15: a name in a condition on _uuid selects the inserted row (update count)")
+		l, ok := leaves[got]
+		rt.Assert(ok && l.(*fix.Leaf5).Name == "renamed" && leaves[fix.F2].(*fix.Leaf5).Name == "other", "C15: a name in a condition on _uuid refers to the inserted row and no other")
+	case 1:
+		rt.Assert(len(res[4].Rows) == 1, "C15: a name in a condition on _uuid selects the inserted row (select)")
+	case 2:
+		rt.Assert(res[4].Count == 1, "C15: the mutation applies")
+		_, ok := leaves[got]
+		rt.Assert(!ok && len(leaves) == 1, "C15: a name used as a mutation argument refers to the inserted row (it is dropped from the set and garbage-collected)")
 	}
 }
